@@ -5,11 +5,31 @@ go 1.21
 require github.com/ryogrid/SamehadaDB/lib v0.0.0
 
 require (
+	github.com/cznic/mathutil v0.0.0-20181122101859-297441e03548 // indirect
 	github.com/deckarep/golang-set/v2 v2.3.0 // indirect
 	github.com/devlights/gomy v0.4.0 // indirect
 	github.com/dsnet/golib/memfile v1.0.0 // indirect
+	github.com/golang-collections/collections v0.0.0-20130729185459-604e922904d3 // indirect
+	github.com/golang/protobuf v1.3.4 // indirect
+	github.com/notEpsilon/go-pair v0.0.0-20221220200415-e91ef28c6c0b // indirect
+	github.com/opentracing/opentracing-go v1.1.0 // indirect
+	github.com/pingcap/errors v0.11.5-0.20190809092503-95897b64e011 // indirect
+	github.com/pingcap/log v0.0.0-20200511115504-543df19646ad // indirect
+	github.com/pingcap/parser v0.0.0-20200623164729-3a18f1e5dceb // indirect
+	github.com/pingcap/tidb v1.1.0-beta.0.20200630082100-328b6d0a955c // indirect
+	github.com/pingcap/tipb v0.0.0-20200522051215-f31a15d98fce // indirect
+	github.com/remyoudompheng/bigfft v0.0.0-20190728182440-6a916e37a237 // indirect
 	github.com/ryogrid/bltree-go-for-embedding v1.0.11 // indirect
+	github.com/shirou/gopsutil v2.19.10+incompatible // indirect
+	github.com/sirupsen/logrus v1.6.0 // indirect
 	github.com/spaolacci/murmur3 v1.1.0 // indirect
+	go.uber.org/atomic v1.6.0 // indirect
+	go.uber.org/multierr v1.5.0 // indirect
+	go.uber.org/zap v1.15.0 // indirect
+	golang.org/x/exp v0.0.0-20230905200255-921286631fa9 // indirect
+	golang.org/x/sys v0.12.0 // indirect
+	golang.org/x/text v0.13.0 // indirect
+	gopkg.in/natefinch/lumberjack.v2 v2.0.0 // indirect
 )
 
 replace github.com/ryogrid/SamehadaDB/lib => /repo/lib
